@@ -207,6 +207,8 @@ struct Lifter<'a> {
     calls_seen: HashMap<String, usize>,
     /// L17e: declared types of loop variables (`loopvars=s:L_State;i:int`)
     loopvars: HashMap<String, String>,
+    /// L23: tolerant lift (observe mode only)
+    tolerant: bool,
     /// observables shared with the main function: binding name -> opaque spec fn to call instead of inlining
     shared: HashMap<String, String>,
     rebound_params: Vec<String>,
@@ -1031,6 +1033,27 @@ impl<'a> Lifter<'a> {
                                     let plist: Vec<String> = self.params.iter().map(|(n, _)| n.clone()).collect();
                                     v(format!("{hname}({})", plist.join(", ")), &ty)
                                 }
+                                _ if self.tolerant => {
+                                    // L23 (tolerant lifts, observe mode): a binding whose initialiser is outside the subset is
+                                    // an opaque value; anything computed from it is opaque too.  Only what the observed
+                                    // expression mentions has to be liftable.
+                                    let mut names = Vec::new();
+                                    struct PB2<'z>(&'z mut Vec<String>);
+                                    impl<'ast, 'z> syn::visit::Visit<'ast> for PB2<'z> {
+                                        fn visit_pat_ident(&mut self, i: &'ast syn::PatIdent) {
+                                            self.0.push(i.ident.to_string());
+                                        }
+                                    }
+                                    syn::visit::Visit::visit_pat(&mut PB2(&mut names), &l.pat);
+                                    self.note("L23", l.span(), &format!("binding outside the subset made opaque (tolerant lift): {e}"));
+                                    let mut pre = String::new();
+                                    for n in &names {
+                                        self.bind(n, "LOpaque");
+                                        pre.push_str(&format!("let {n} = arbitrary::<LOpaque>(); "));
+                                    }
+                                    let r = self.rest(rest, cont)?;
+                                    return Ok(v(format!("{{ {pre}{} }}", r.text), &r.ty));
+                                }
                                 _ => return Err(e),
                             }
                         }
@@ -1211,6 +1234,65 @@ impl<'a> Lifter<'a> {
                                 if b.text.contains("let cap__ =") {
                                     self.note("L17e", e.span(), "observable captured inside a loop body (arbitrary iteration)");
                                     return Ok(v(format!("{pre}{} }}", b.text), &b.ty));
+                                }
+                            }
+                        }
+                    }
+                    // L17f: shallow capture - the loop body is outside the lifter's subset, but the observed argument
+                    // only mentions values that are in scope *before* the loop and are never rebound in the function
+                    // (parameters, earlier immutable lets): its value does not depend on the path through the body
+                    if let Some(rest_o) = obs.strip_prefix('@') {
+                        if let Some((fname, k)) = rest_o.split_once('.') {
+                            let fname = fname.split('#').next().unwrap_or("").to_string();
+                            let k: usize = k.parse().unwrap_or(usize::MAX);
+                            struct FindCall<'x> { name: String, found: Option<&'x syn::ExprCall> }
+                            impl<'ast> syn::visit::Visit<'ast> for FindCall<'ast> {
+                                fn visit_expr_call(&mut self, c: &'ast syn::ExprCall) {
+                                    if self.found.is_none() {
+                                        if let syn::Expr::Path(p) = &*c.func {
+                                            if p.path.segments.last().map(|s| s.ident == self.name).unwrap_or(false) {
+                                                self.found = Some(c);
+                                            }
+                                        }
+                                    }
+                                    syn::visit::visit_expr_call(self, c);
+                                }
+                            }
+                            let mut fc = FindCall { name: fname, found: None };
+                            syn::visit::Visit::visit_block(&mut fc, &f.body);
+                            if let Some(c) = fc.found {
+                                if let Some(arg) = c.args.iter().nth(k) {
+                                    // identifiers of the argument must not be assigned or bound anywhere in the loop body
+                                    let mut ids = Vec::new();
+                                    struct Ids<'y>(&'y mut Vec<String>);
+                                    impl<'ast, 'y> syn::visit::Visit<'ast> for Ids<'y> {
+                                        fn visit_path(&mut self, p: &'ast syn::Path) {
+                                            if let Some(i) = p.get_ident() {
+                                                self.0.push(i.to_string());
+                                            }
+                                        }
+                                    }
+                                    syn::visit::Visit::visit_expr(&mut Ids(&mut ids), arg);
+                                    let assigned = Self::assigned_vars(&f.body);
+                                    let mut bound = Vec::new();
+                                    struct PB<'z>(&'z mut Vec<String>);
+                                    impl<'ast, 'z> syn::visit::Visit<'ast> for PB<'z> {
+                                        fn visit_pat_ident(&mut self, i: &'ast syn::PatIdent) {
+                                            self.0.push(i.ident.to_string());
+                                        }
+                                    }
+                                    syn::visit::Visit::visit_block(&mut PB(&mut bound), &f.body);
+                                    syn::visit::Visit::visit_pat(&mut PB(&mut bound), &f.pat);
+                                    let stable = ids.iter().all(|i| !assigned.contains(i) && !bound.contains(i));
+                                    if stable {
+                                        if let Ok(a) = self.expr(arg) {
+                                            self.note("L17f", e.span(), "observable taken from a call inside a loop body that is not lifted: the argument only mentions values fixed before the loop");
+                                            if self.ret_ty.starts_with("Result<") {
+                                                return Ok(v(format!("{{ let cap__ = {}; Ok::<{}, LErr>(cap__) }}", a.text, a.ty), &format!("Result<{}, LErr>", a.ty)));
+                                            }
+                                            return Ok(v(format!("{{ let cap__ = {}; cap__ }}", a.text), &a.ty));
+                                        }
+                                    }
                                 }
                             }
                         }
@@ -2159,6 +2241,7 @@ pub fn lift_fn(ctx: &mut Ctx, blk: &Block) -> Result<(String, Value), String> {
             out_param: out_param.clone(),
             observe: observe.clone(),
             calls_seen: HashMap::new(),
+            tolerant: blk.flag("tolerant") && observe.is_some(),
             loopvars: blk.opt("loopvars").map(|t| t.split(';').filter_map(|kv| kv.split_once(':').map(|(a, b)| (a.trim().to_string(), b.trim().to_string()))).collect()).unwrap_or_default(),
             shared: if blk.flag("share_observed") { outputs.iter().filter_map(|(n, o)| o.clone().map(|o| (o, n.clone()))).collect() } else { HashMap::new() },
             rebound_params: vec![],
@@ -2182,6 +2265,19 @@ pub fn lift_fn(ctx: &mut Ctx, blk: &Block) -> Result<(String, Value), String> {
         text.push_str(&format!("{opaque}pub open spec fn {oname}({}) -> {rty} {{\n    {}\n}}\n", ps.join(", "), body.text));
         result_tys.push((oname.clone(), rty));
     }
+    // module constants (L21) are declared once per unit
+    let mut havocs_unit: Vec<String> = Vec::new();
+    for h in &havocs_all {
+        if let Some(rest) = h.strip_prefix("pub uninterp spec fn K_") {
+            let cname = format!("K_{}", rest.split('(').next().unwrap_or(""));
+            if ctx.lift.fns.contains_key(&cname) {
+                continue;
+            }
+            ctx.lift.fns.insert(cname, (vec![], "real".to_string()));
+        }
+        havocs_unit.push(h.clone());
+    }
+    let havocs_all = havocs_unit;
     let text = format!("{}{}{}", havocs_all.join("\n"), if havocs_all.is_empty() { "" } else { "\n" }, text);
     // register for later units
     let ptys: Vec<String> = params.iter().map(|(_, t)| t.clone()).collect();
